@@ -159,6 +159,17 @@ def globalOk (roots : List (Nat Ã— Nat)) (fonts : List (Nat Ã— Nat)) : List Ev â
       | none => globalOk roots fonts es
       | some c => (lookup c roots).isSome && globalOk roots fonts es
 
+/-- the canvas â†¦ page table after a prefix of the trace (what `globalOk` has computed by then);
+    `lookup c (rootsAfter [] pre)` is "the page canvas `c` belongs to" at that point -/
+def rootsAfter (roots : List (Nat Ã— Nat)) : List Ev â†’ List (Nat Ã— Nat)
+  | [] => roots
+  | .addPage c :: es => rootsAfter ((c, c) :: roots) es
+  | .newGroup c g :: es =>
+    match lookup c roots with
+    | none => rootsAfter roots es
+    | some r => rootsAfter ((g, r) :: roots) es
+  | _ :: es => rootsAfter roots es
+
 def pagesOk (n : Nat) (evs : List Ev) : Bool := (evs.filter Ev.isAddPage).length == n
 
 /-- canvases created in the trace -/
